@@ -305,15 +305,21 @@ func TestPropAgentDedup(t *testing.T) {
 // ---------------------------------------------------------------- part B
 
 type CaseB struct {
-	Pollers  int   `json:"pollers"`
-	Clients  int   `json:"clients"`
-	GapsMs   []int `json:"gaps_ms"`
-	PollGap  []int `json:"poll_gap_ms"`
-	Procs    int   `json:"gomaxprocs"`
-	FetchPar bool  `json:"fetch_in_parallel"`
+	Pollers     int   `json:"pollers"`
+	Clients     int   `json:"clients"`
+	GapsMs      []int `json:"gaps_ms"`
+	PollGap     []int `json:"poll_gap_ms"`
+	Procs       int   `json:"gomaxprocs"`
+	FetchPar    bool  `json:"fetch_in_parallel"`
+	PollDelayMs int   `json:"pollers_start_after_ms,omitempty"`
 }
 
 func genCaseB(t *rapid.T) CaseB {
+	if rapid.IntRange(0, 7).Draw(t, "burst") == 0 {
+		// many clients queue up while nobody polls (agent restarting or backing off), then the pollers start
+		return CaseB{Pollers: rapid.IntRange(1, 4).Draw(t, "bpollers"), Clients: rapid.SampledFrom([]int{99, 100, 101, 130, 250}).Draw(t, "bclients"),
+			GapsMs: []int{0}, PollGap: []int{0}, Procs: rapid.SampledFrom([]int{1, 4, 16}).Draw(t, "bprocs"), FetchPar: true, PollDelayMs: 300}
+	}
 	return CaseB{
 		Pollers:  rapid.IntRange(1, 16).Draw(t, "pollers"),
 		Clients:  rapid.IntRange(1, 40).Draw(t, "clients"),
@@ -364,6 +370,9 @@ func closeServers() {
 func runCaseB(t vh.TB, c *CaseB) vh.Outcome {
 	s := getServer(t, c.Procs)
 	o := vh.Outcome{NonTrivial: c.Pollers >= 2 && c.Clients >= 2}
+	if c.Clients > 100 {
+		o.Classes = append(o.Classes, "burst>100-queued-before-polling")
+	}
 	if o.NonTrivial {
 		o.Classes = append(o.Classes, "pollers>=2,clients>=2")
 	}
@@ -412,6 +421,9 @@ func runCaseB(t vh.TB, c *CaseB) vh.Outcome {
 		pwg.Add(1)
 		go func() {
 			defer pwg.Done()
+			if c.PollDelayMs > 0 {
+				time.Sleep(time.Duration(c.PollDelayMs) * time.Millisecond)
+			}
 			for round := 0; ctx.Err() == nil; round++ {
 				rq, _ := http.NewRequestWithContext(ctx, "GET", base+"agent/pending", nil)
 				rq.Header.Set(vh.HdrBackendID, "b")
